@@ -174,6 +174,11 @@ def handle (model : String) : List String → String
     match q.toNat? with
     | none => "BAD queue size"
     | some q =>
+      -- C05 (concurrent senders): the harness has parsed the byte stream that reached the connection
+      let streamPart := (status.splitOn ",stream=")
+      let status := streamPart.headD status
+      let stream := (streamPart.drop 1).headD "ok"
+      if model = "c05c" && stream ≠ "ok" then s!"SPEC key=stream-{stream} (frames of concurrent senders interleaved on the connection)" else
       if status ≠ "complete" then s!"DIFF harness: {status}" else
       let cancelled := parseNatList (dropS cancelled 10)
       let foreign := dropS foreign 8
